@@ -64,6 +64,11 @@ pub struct PCase {
     /// same file], which the writer folds into ONE module spanning the hole
     #[serde(default)]
     pub holey_module: bool,
+    /// the same writer makes two requests and the target unmaps the principal mapping in between: the
+    /// second request - for which the principal address lies in no mapping any more - is the one judged
+    /// (only with skip on, sanitize off, and when no thread runs inside that mapping)
+    #[serde(default)]
+    pub unmap_between: bool,
 }
 
 pub struct PObs {
@@ -86,11 +91,13 @@ pub fn run_case(c: &PCase) -> Result<PObs, Verdict> {
     let scratch = Target::new_scratch();
     let mut b = Builder::new();
     let mut maps = vec![];
+    let mut map_ids: Vec<(u64, u32)> = vec![];
     for (pages, exec) in &c.maps {
         let pages = (*pages as u64 % 4) + 1;
         // rwx so that loop code can be copied in; non-exec ones are rw-
-        let (_, addr) = b.add_anon(pages, if *exec { 7 } else { 3 }, 0x3300 + pages);
+        let (id, addr) = b.add_anon(pages, if *exec { 7 } else { 3 }, 0x3300 + pages);
         maps.push((addr, addr + pages * PAGE, *exec));
+        map_ids.push((addr, id));
     }
     if c.holey_module {
         use std::os::unix::ffi::OsStrExt;
@@ -204,6 +211,24 @@ pub fn run_case(c: &PCase) -> Result<PObs, Verdict> {
     }
     let mut w = make_writer(t.pid, &opts);
     let mut dest = Dest::new(vec![], 0);
+    let mut principal = principal;
+    let mut maps = maps;
+    let mut t = t;
+    if let (true, true, false, Some((ps, _))) = (c.unmap_between, c.skip, c.sanitize, principal) {
+        let id = map_ids.iter().find(|(a, _)| *a == ps).map(|(_, id)| *id);
+        let code_inside = spec.copycode.iter().any(|a| maps.iter().any(|(s, e, _)| *s == ps && a >= s && a < e));
+        if let (Some(id), false) = (id, code_inside) {
+            let mut first = Dest::new(vec![], 0);
+            if let DumpOutcome::Panic(l, m) = run_dump(&mut w, &mut first) {
+                return Err(panic_verdict(&l, &m));
+            }
+            if !t.wait_settled(&spec) || !t.cmd(&format!("unmap {id}")) || !t.wait_settled(&spec) {
+                return Err(Verdict::Inconclusive("target did not unmap / settle between the two requests".into()));
+            }
+            maps.retain(|(s, _, _)| *s != ps);
+            principal = None;
+        }
+    }
     let img = match run_dump(&mut w, &mut dest) {
         DumpOutcome::Ok(v) => v,
         DumpOutcome::Err(e) => return Err(Verdict::viol("dump-failed", format!("dump returned {e}"))),
@@ -250,10 +275,11 @@ pub fn case_strategy(force_sanitize: Option<bool>, force_skip: Option<bool>, for
         any::<bool>(),
         any::<bool>(),
         proptest::bool::weighted(0.4),
-        proptest::bool::weighted(0.35),
+        (proptest::bool::weighted(0.35), proptest::bool::weighted(0.25)),
     )
-        .prop_map(move |(threads, maps, principal, crash_on, crash_rip_in_principal, sanitize, skip, limit, holey_module)| PCase {
+        .prop_map(move |(threads, maps, principal, crash_on, crash_rip_in_principal, sanitize, skip, limit, (holey_module, unmap_between))| PCase {
             holey_module,
+            unmap_between,
             limit: force_limit.unwrap_or(limit),
             threads,
             maps,
